@@ -7,6 +7,7 @@ import (
 	"go/ast"
 	"go/token"
 	"go/types"
+	"sort"
 	"strings"
 )
 
@@ -744,6 +745,17 @@ func (x *Unit) applyContract(st *State, pc *preparedCall) []Term {
 		} else if c.ModAll {
 			x.havocAll(st)
 		} else {
+			// frame: everything the callee's body can syntactically write (inferred from the real code, transitively),
+			// plus whatever the contract declares (needed for callees without a body: interface methods, function values)
+			if pc.unit != nil && !c.NoCheck {
+				ms := x.unitMods(pc.unit)
+				if ms.all {
+					x.warn("frame of %s inferred as 'everything' (it calls code without a frame)", pc.name)
+					x.havocAll(st)
+				} else {
+					x.havocModSet(st, ms)
+				}
+			}
 			for _, m := range c.Modifies {
 				x.havocNamed(st, m, pc.node)
 			}
@@ -751,6 +763,12 @@ func (x *Unit) applyContract(st *State, pc *preparedCall) []Term {
 		rets = x.freshResults(pc.sig, pc.name)
 	}
 	x.traceEvent(st, pc.name, targs, rets)
+	if len(c.Monitor) > 0 {
+		env := x.contractEnv(st, pre, pc, rets)
+		for _, en := range c.Monitor {
+			x.assume(st, env.boolOf(en.Expr))
+		}
+	}
 	if len(c.Ensures) > 0 {
 		env := x.contractEnv(st, pre, pc, rets)
 		for _, en := range c.Ensures {
@@ -1198,6 +1216,22 @@ func (x *Unit) contractMods(c *FuncContract, n ast.Node, ms *modSet) {
 		x.compsNamed(m, n, ms)
 	}
 	ms.comps["alloc"] = true
+	if u := x.unitOfContract(c); u != nil && !c.NoCheck {
+		sub := x.unitMods(u)
+		if sub.all {
+			ms.all = true
+		}
+		for k := range sub.comps {
+			ms.comps[k] = true
+		}
+	}
+}
+
+func (x *Unit) unitOfContract(c *FuncContract) *FuncUnit {
+	if u, ok := x.P.Units[unitKey(c.Pkg, c.Name)]; ok {
+		return u
+	}
+	return nil
 }
 
 func (x *Unit) callMods(e *ast.CallExpr, ms *modSet) {
@@ -1290,10 +1324,10 @@ func (x *Unit) callMods(e *ast.CallExpr, ms *modSet) {
 				return
 			}
 			x.modStack = append(x.modStack, u)
-			oi, op := x.info, x.pkg
-			x.info, x.pkg = u.Pkg.TypesInfo, u.Pkg
+			oi, op, mt := x.info, x.pkg, x.modsTop
+			x.info, x.pkg, x.modsTop = u.Pkg.TypesInfo, u.Pkg, false
 			sub := x.modsOf(u.Body)
-			x.info, x.pkg = oi, op
+			x.info, x.pkg, x.modsTop = oi, op, mt
 			x.modStack = x.modStack[:len(x.modStack)-1]
 			for c := range sub.comps {
 				ms.comps[c] = true
@@ -1491,4 +1525,58 @@ func (x *Unit) canonPure(key, pkgPath string) string {
 		return pk.Name + "." + key
 	}
 	return key
+}
+
+// unitMods: syntactic write set of a function under contract (cached), computed with that function's own type information.
+func (x *Unit) unitMods(u *FuncUnit) *modSet {
+	if ms, ok := x.modCache[u]; ok {
+		return ms
+	}
+	for _, s := range x.modStack {
+		if s == u {
+			return &modSet{all: true, vars: map[types.Object]bool{}, comps: map[string]bool{}, ghosts: map[string]bool{}}
+		}
+	}
+	x.modStack = append(x.modStack, u)
+	oi, op, mt := x.info, x.pkg, x.modsTop
+	x.info, x.pkg, x.modsTop = u.Pkg.TypesInfo, u.Pkg, false
+	ms := x.modsOf(u.Body)
+	x.info, x.pkg, x.modsTop = oi, op, mt
+	x.modStack = x.modStack[:len(x.modStack)-1]
+	x.modCache[u] = ms
+	return ms
+}
+
+func (x *Unit) havocModSet(st *State, ms *modSet) {
+	if ms.comps["alloc"] {
+		x.regComp("alloc", SInt)
+		old := x.get(st, "alloc")
+		x.havocComp(st, "alloc")
+		x.assumes = append(x.assumes, "(>= "+x.get(st, "alloc").S+" "+old.S+")")
+	}
+	var names []string
+	for c := range ms.comps {
+		names = append(names, c)
+	}
+	sort.Strings(names)
+	for _, c := range names {
+		if c == "alloc" || c == "$nlocks" || strings.HasPrefix(c, "L:") {
+			continue
+		}
+		if _, ok := x.compSorts[c]; ok {
+			x.havocComp(st, c)
+		}
+	}
+}
+
+// resolveTypeAny resolves a type expression in whichever loaded package knows it.
+func (x *Unit) resolveTypeAny(s string) types.Type {
+	for _, pk := range x.P.Pkgs {
+		for _, f := range pk.Syntax {
+			if tv, err := types.Eval(x.P.Fset, pk.Types, f.End()-1, s); err == nil && tv.IsType() {
+				return tv.Type
+			}
+		}
+	}
+	panic(unsupportedErr{"cannot resolve type " + s})
 }
